@@ -9,7 +9,7 @@ SPEC = {
     "rule": (
         "one case = one seeded history on one table: an initial state (empty / prefilled / random run-length "
         "encoding incl. ragged rows and header rows / sample .ods|.odt table) followed by <= 40 generated public "
-        "Table/Row/Cell operations, the real table stepped next to an uncompressed list-of-lists Grid model and the "
+        "Table/Row/Cell operations (incl. read-edit-push-back idioms: a row taken from get_row / get_rows / rows / traverse, an area read with get_cells or a column read with get_column and set straight back), the real table stepped next to an uncompressed list-of-lists Grid model and the "
         "full comparison set (size, get_values, area, every row's values and width, every single value in a window "
         "one ring beyond the edges, a column, a padded row, cell styles) compared after every step. distinct = "
         "distinct run digest (ops + outcomes + state digests). non-trivial = >= 3 mutations, >= 1 mutation aimed "
